@@ -405,3 +405,37 @@ def check_span(ctx, oracle, sig, feats=None):
     if abs(got - want) > exact.time_tol(want):
         ctx.violation(oracle, f"stop_time - start_time = {float(got)!r} s, expected len/rate = {float(want)!r} s "
                               f"(err {float((got - want) * rate):.3e} samples)", {"len": n}, dict(feats, what="stop"))
+
+
+def joint_compute_check(ctx, oracle, outs, feats, what="results"):
+    """Lazy results that are each right when computed alone must also be right when evaluated in one Dask graph
+    (dask.compute(a, b), a * conj(b), concatenate...): graph keys of different results must not collide.
+
+    ``outs``: Dask-backed signals or Dask arrays.  The values each one gives alone (what the per-call monitors judge) are the reference."""
+    import dask
+    from . import probes
+    arrs = [getattr(s, "data", s) for s in outs]
+    arrs = [a for a in arrs if isinstance(a, da.Array)]
+    if len(arrs) < 2:
+        return
+    with probes.quiet():
+        alone = [np.asarray(a.compute(scheduler="synchronous")) for a in arrs]
+        together = dask.compute(*arrs, scheduler="synchronous")
+    ctx.count(f"oracle[{oracle}_joint]")
+    for i, (a, b) in enumerate(zip(alone, together)):
+        b = np.asarray(b)
+        if a.shape != b.shape:
+            ctx.violation(oracle, f"{what}: result {i} has shape {a.shape} computed alone and {b.shape} computed in one graph with the others",
+                          None, dict(feats, what="joint_graph"))
+            return
+        if a.size == 0:
+            continue
+        fin = np.isfinite(a)
+        scale = float(np.sqrt(np.sum(np.abs(a[fin]).astype(np.float64) ** 2))) if fin.any() else 0.0
+        err = float(np.sqrt(np.sum(np.abs((a - b)[fin]).astype(np.float64) ** 2))) if fin.any() else 0.0
+        eps = 1e-5 if a.dtype.itemsize // (2 if a.dtype.kind == "c" else 1) <= 4 else 1e-12
+        if err > eps * scale + 1e-300 or not np.array_equal(np.isfinite(a), np.isfinite(b)):
+            ctx.violation(oracle, f"{what}: result {i} of {len(arrs)} differs when the lazy results are evaluated together in one Dask graph "
+                                  f"(l2 difference {err:.3e} = {err / (scale + 1e-300):.3e} of its norm); each is right when computed alone",
+                          None, dict(feats, what="joint_graph"))
+            return
